@@ -30,6 +30,7 @@ const (
 	idCINoop        = "C13-ci-noop-update"     // UPDATE to a collation-equal but different string is dropped
 	idKeylessCI     = "C13-keyless-ci-rows"    // keyless table: edits of rows that differ only in case hit the wrong row
 	idValuesSelect  = "C13-odku-values-select" // INSERT .. SELECT .. ON DUPLICATE KEY UPDATE c = VALUES(c) is rejected
+	idOdkuAlias     = "C13-odku-row-aliasing"  // a row updated through ON DUPLICATE KEY UPDATE on a keyless table is later overwritten by another row's update
 )
 
 var known = map[string]string{
@@ -38,6 +39,7 @@ var known = map[string]string{
 	tmodel.FlagReplaceMulti:  idReplaceCount,
 	tmodel.FlagCINoopUpdate:  idCINoop,
 	tmodel.FlagKeylessCI:     idKeylessCI,
+	tmodel.FlagOdkuKeyless:   idOdkuAlias,
 }
 
 // profile: the value domains. Strings use the default binary collation on key columns
@@ -149,6 +151,14 @@ func TestC13Witness(t *testing.T) {
 			{"INSERT INTO t VALUES (1, 1)", nil, 1, ""},
 			{"INSERT INTO s VALUES (1, 10), (2, 20)", nil, 2, ""},
 			{"INSERT INTO t SELECT pk, c FROM s ORDER BY pk ON DUPLICATE KEY UPDATE c = VALUES(c)", [][]string{{"n:1", "n:10"}, {"n:2", "n:20"}}, 3, "t"},
+		}},
+		{idOdkuAlias, "after ON DUPLICATE KEY UPDATE changed a row of a keyless table, a later UPDATE overwrites another stored row and fails with a false duplicate", []step{
+			{"CREATE TABLE t (s VARCHAR(8), u INT NOT NULL, UNIQUE KEY u1 (u))", nil, -1, ""},
+			{"INSERT INTO t VALUES ('', -3)", nil, 1, ""},
+			{"INSERT INTO t VALUES ('a', -3) ON DUPLICATE KEY UPDATE u = -4", nil, 2, ""},
+			{"INSERT INTO t VALUES ('', -2)", nil, 1, ""},
+			{"UPDATE t SET u = u - 2 ORDER BY u", [][]string{{"s:", "n:-6"}, {"s:", "n:-4"}}, 2, "t"},
+			{"UPDATE t SET s = NULL", [][]string{{"N", "n:-6"}, {"N", "n:-4"}}, 2, "t"},
 		}},
 		{idKeylessCI, "UPDATE on a keyless table with a case-insensitive column edits the wrong one of two rows that differ only in case", []step{
 			{"CREATE TABLE t (s VARCHAR(8) COLLATE utf8mb4_general_ci NOT NULL, c INT)", nil, -1, ""},
